@@ -335,7 +335,14 @@ fn cmd_show(args: &[String]) -> i32 {
 fn main() {
     let args: Vec<String> = std::env::args().collect();
     // panics inside VM calls are outcomes, not noise
-    std::panic::set_hook(Box::new(|_| {}));
+    // (a panic in the harness's own code is a harness error: say where)
+    std::panic::set_hook(Box::new(|info| {
+        if let Some(l) = info.location() {
+            if !l.file().contains("/repo/") && !l.file().contains("rbpf") {
+                eprintln!("harness panic at {}:{}: {}", l.file(), l.line(), info);
+            }
+        }
+    }));
     guard::install_signal_handlers();
     if let Some(m) = arg(&args, "--max-ops") {
         gen::MAX_OPS.store(m.parse().expect("--max-ops"), std::sync::atomic::Ordering::Relaxed);
